@@ -66,7 +66,10 @@ class Ctx:
         # per-process scratch: two runs of the same check must never share generated .v files
         self.scratch = os.path.join(V, "build", prop_id, "run-%d" % os.getpid())
         os.makedirs(self.scratch, exist_ok=True)
-        self.replay_dir = os.path.join(V, "replays", prop_id)
+        # registered runs (against /repo) write /verif/replays and /verif/evidence; a run pointed at a scratch worktree
+        # (VERIF_REPO, seeded-change testing) writes under build/ so that it never replaces the evidence of record
+        self.scratch_run = os.path.realpath(os.environ.get("VERIF_REPO", "/repo")) != "/repo"
+        self.replay_dir = os.path.join(V, "build", prop_id, "replays-scratch") if self.scratch_run else os.path.join(V, "replays", prop_id)
         os.makedirs(self.replay_dir, exist_ok=True)
         self.max_violations_per_site = 3
         self._site_counts = {}
@@ -313,8 +316,9 @@ def write_evidence(ctx, level="proof", extra_assumptions=()):
     ev = {"property_id": ctx.prop_id, "tier": ctx.tier, "seed": ctx.seed, "level": level, "coverage": cov,
           "assumptions": list(TRUSTED_BASE) + list(extra_assumptions) + list(getattr(ctx, "assumptions", [])),
           "wall_s": round(time.time() - ctx.t0, 2), "violations": len(ctx.violations)}
-    os.makedirs(os.path.join(V, "evidence"), exist_ok=True)
-    with open(os.path.join(V, "evidence", ctx.prop_id + ".json"), "w") as f:
+    evdir = os.path.join(V, "build", ctx.prop_id, "evidence-scratch") if getattr(ctx, "scratch_run", False) else os.path.join(V, "evidence")
+    os.makedirs(evdir, exist_ok=True)
+    with open(os.path.join(evdir, ctx.prop_id + ".json"), "w") as f:
         json.dump(ev, f, indent=1, default=_jd)
 
 
